@@ -126,3 +126,50 @@ theorem sum_min_eq_of_le (cs : List Nat) (M : α) (h : ∀ c ∈ cs, ((c : ℤ) 
     rw [ih (fun c' hc' => h c' (by simp [hc'])), min_eq_left (h c (by simp))]
 
 end
+
+/-! ### `sorted(..., reverse=True, key=itemgetter(1, 0))` -/
+
+theorem insertDesc_perm (x : UInt64 × Nat) (l : List (UInt64 × Nat)) : (insertDesc x l).Perm (x :: l) := by
+  induction l with
+  | nil => simp [insertDesc]
+  | cons y ys ih =>
+    unfold insertDesc
+    split_ifs
+    · exact List.Perm.refl _
+    · exact (List.Perm.cons y ih).trans (List.Perm.swap x y ys)
+
+theorem sortDesc_perm (l : List (UInt64 × Nat)) : (sortDesc l).Perm l := by
+  induction l with
+  | nil => simp [sortDesc]
+  | cons x xs ih => exact (insertDesc_perm x _).trans (List.Perm.cons x ih)
+
+theorem insertDesc_sorted (x : UInt64 × Nat) (l : List (UInt64 × Nat)) (h : l.Pairwise (fun a b => a.2 ≥ b.2)) :
+    (insertDesc x l).Pairwise (fun a b => a.2 ≥ b.2) := by
+  induction l with
+  | nil => simp [insertDesc]
+  | cons y ys ih =>
+    unfold insertDesc
+    have hy := List.pairwise_cons.mp h
+    split_ifs with hc
+    · refine List.pairwise_cons.mpr ⟨?_, h⟩
+      have hxy : x.2 ≥ y.2 := by
+        simp only [gt_iff_lt, Bool.or_eq_true, decide_eq_true_eq, Bool.and_eq_true, beq_iff_eq] at hc
+        rcases hc with hc | hc <;> omega
+      intro b hb
+      rcases List.mem_cons.mp hb with rfl | hb
+      · exact hxy
+      · exact le_trans (hy.1 b hb) hxy
+    · refine List.pairwise_cons.mpr ⟨?_, ih hy.2⟩
+      have hyx : y.2 ≥ x.2 := by
+        simp only [gt_iff_lt, Bool.or_eq_true, decide_eq_true_eq, Bool.and_eq_true, beq_iff_eq, not_or, not_and, not_lt] at hc
+        exact hc.1
+      intro b hb
+      rcases List.mem_cons.mp ((insertDesc_perm x ys).mem_iff.mp hb) with rfl | hb
+      · exact hyx
+      · exact hy.1 b hb
+
+/-- the contributions handed to the flattening are sorted decreasingly and are a permutation of the input -/
+theorem sortDesc_sorted (l : List (UInt64 × Nat)) : (sortDesc l).Pairwise (fun a b => a.2 ≥ b.2) := by
+  induction l with
+  | nil => simp [sortDesc]
+  | cons x xs ih => exact insertDesc_sorted x _ ih
